@@ -314,17 +314,15 @@ def toPattern : Piece → PatPiece
   | .unsplit s => .literal s
   | .split s => .pattern s
 
-/-- some `Pattern` piece has glob metacharacters (`requires_expansion`, piece by piece) -/
-def requiresExpansion (ext : Bool) (ps : List PatPiece) : Bool :=
-  ps.any fun
-    | .pattern s => Pattern.hasGlob ext s
-    | .literal _ => false
-
-/-- the pattern text `to_regex_str` hands to the pattern-to-regex translator -/
+/-- `pattern_text` (patterns.rs): the joined pattern text, literal pieces with their `needsQuoting` characters escaped -/
 def patternText (ps : List PatPiece) : Str :=
   ps.flatMap fun
     | .pattern s => s
     | .literal s => Pattern.escapeLiteral s
+
+/-- `requires_expansion(pattern_text(pieces))`: the question "is this a glob?" is asked of the joined pattern text
+(quoted pieces escaped), so a construct spread over several pieces (`[a"b"]`) counts, and quoted metacharacters do not -/
+def requiresExpansion (ext : Bool) (ps : List PatPiece) : Bool := Pattern.hasGlob ext (patternText ps)
 
 inductive GlobRes
   | noGlob
